@@ -127,6 +127,64 @@ package aggregate
 //@   loop#1 invariant forall j in 0 .. i : exists k attribute.Distinct : old(has(s.values, k)) && dPts[j].Value === old(s.values[k].n) && dPts[j].Attributes == old(s.values[k].attrs)
 //@   loop#1 invariant forall k attribute.Distinct : has(s.values, k) == old(has(s.values, k)) && (has(s.values, k) ==> s.values[k] === old(s.values[k]))
 
+// gauges (last value): a measurement REPLACES the value of exactly the stream the limiter selects; every other stream is untouched
+//@ guarded_by lastValue.Mutex: values
+//@ func (s *lastValue[N]) measure(ctx context.Context, value N, fltrAttr attribute.Set, droppedAttr []attribute.KeyValue)
+//@   prop C08 C12
+//@   instances int64; float64
+//@   acquires s.Mutex
+//@   overflow assumed
+//@   requires s != nil && s.values != nil && s.newRes != nil
+//@   requires (forall a attribute.Set : s.newRes(a) != nil) && (forall k attribute.Distinct : has(s.values, k) ==> s.values[k].res != nil)
+//@   modifies s.values
+//@   ensures has(s.values, old(s.limit.Attributes(fltrAttr, s.values).Equivalent()))
+//@   ensures s.values[old(s.limit.Attributes(fltrAttr, s.values).Equivalent())].value === value
+//@   ensures s.values[old(s.limit.Attributes(fltrAttr, s.values).Equivalent())].attrs == old(s.limit.Attributes(fltrAttr, s.values))
+//@   ensures forall k attribute.Distinct : k != old(s.limit.Attributes(fltrAttr, s.values).Equivalent()) ==> has(s.values, k) == old(has(s.values, k)) && (has(s.values, k) ==> s.values[k] === old(s.values[k]))
+
+// copyDpts: one data point per stream, carrying the stream's last value and attributes, over [start, t]; the streams are not changed
+//@ func (s *lastValue[N]) copyDpts(dest *[]metricdata.DataPoint[$N], t time.Time) (n int)
+//@   prop C08
+//@   instances int64; float64
+//@   holds s.Mutex
+//@   overflow assumed
+//@   unchecked frame the destination's previous data point slice may be reused in place
+//@   requires s != nil && s.values != nil && dest != nil
+//@   requires forall k attribute.Distinct : has(s.values, k) ==> s.values[k].res != nil
+//@   modifies dest, elemscap(*dest)
+//@   ensures n == len(s.values) && len(*dest) == n
+//@   ensures forall j in 0 .. n : (*dest)[j].StartTime === s.start && (*dest)[j].Time === t
+//@   ensures forall j in 0 .. n : exists k attribute.Distinct : has(s.values, k) && (*dest)[j].Value === s.values[k].value && (*dest)[j].Attributes == s.values[k].attrs
+//@   loop#1 invariant i == $iter && 0 <= i && i <= n && len(*dest) == n && n == len(s.values)
+//@   loop#1 invariant forall j in 0 .. i : (*dest)[j].StartTime === s.start && (*dest)[j].Time === t
+//@   loop#1 invariant forall j in 0 .. i : exists k attribute.Distinct : has(s.values, k) && (*dest)[j].Value === s.values[k].value && (*dest)[j].Attributes == s.values[k].attrs
+//@   loop#1 invariant forall k attribute.Distinct : has(s.values, k) == old(has(s.values, k)) && (has(s.values, k) ==> s.values[k] === old(s.values[k]))
+
+// delta forgets the streams and moves the interval on; cumulative keeps both
+//@ func (s *lastValue[N]) delta(dest *metricdata.Aggregation) (n int)
+//@   prop C08
+//@   instances int64; float64
+//@   acquires s.Mutex
+//@   overflow assumed
+//@   unchecked frame the destination's previous data point slice may be reused in place
+//@   requires s != nil && s.values != nil && dest != nil
+//@   requires forall k attribute.Distinct : has(s.values, k) ==> s.values[k].res != nil
+//@   ensures n == old(len(s.values)) && len(s.values) == 0 && s.start === now()
+//@   ensures typeis(*dest, "metricdata.Gauge[$N]") && len(cast(*dest, "metricdata.Gauge[$N]").DataPoints) == n
+//@   assert@call lastValue.copyDpts#1 : $arg2 === now() && holds(s.Mutex)
+//@ func (s *lastValue[N]) cumulative(dest *metricdata.Aggregation) (n int)
+//@   prop C08
+//@   instances int64; float64
+//@   acquires s.Mutex
+//@   overflow assumed
+//@   unchecked frame the destination's previous data point slice may be reused in place
+//@   requires s != nil && s.values != nil && dest != nil
+//@   requires forall k attribute.Distinct : has(s.values, k) ==> s.values[k].res != nil
+//@   ensures n == old(len(s.values)) && len(s.values) == old(len(s.values)) && s.start === old(s.start)
+//@   ensures forall k attribute.Distinct : has(s.values, k) == old(has(s.values, k)) && (has(s.values, k) ==> s.values[k] === old(s.values[k]))
+//@   ensures typeis(*dest, "metricdata.Gauge[$N]") && len(cast(*dest, "metricdata.Gauge[$N]").DataPoints) == n
+//@   assert@call lastValue.copyDpts#1 : $arg2 === now() && holds(s.Mutex)
+
 // ======================================================================== C07 explicit-bucket histograms
 //@ spec sortedF(a []float64) bool = forall i in 0 .. len(a) : forall j in 0 .. i : a[j] <= a[i]
 
